@@ -288,7 +288,9 @@ func runWsTrial(id int, seed int64, url string) *wsTrialResult {
 	case "localreason":
 		guarded("CloseDataConnection(4001, \"bye\")", 15*time.Second, func() { sut.CloseDataConnection(4001, "bye") })
 	case "peerclose":
-		_ = peer.WriteMessage(websocket.CloseMessage, websocket.FormatCloseMessage(4000+rnd.Intn(500), "peer"))
+		// regular and irregular close codes alike: the SHIP layer has to learn that the connection is gone
+		code := []int{1000, 1001, 1002, 1011, 4001, 4452, 4000 + rnd.Intn(500)}[rnd.Intn(7)]
+		_ = peer.WriteMessage(websocket.CloseMessage, websocket.FormatCloseMessage(code, "peer"))
 	case "closeduringread":
 		// the frame is taken from the socket, then the connection is closed locally, then the read returns it
 		fc.mu.Lock()
